@@ -817,6 +817,10 @@ class CellsImpl(*_cells_impl_base):
             self.input_keys.remove(key)
 
     def clear_all_values(self, clear_input):
+        if not self.is_cached:
+            # An uncached cells holds no values: what was computed through
+            # it hangs on its object node in the trace graph.
+            self.model.clear_obj(self)
         for key in list(self.data):
             self.clear_value_at(key, clear_input)
 
